@@ -313,6 +313,17 @@ func c20step(ctx context.Context, vm *c20VM, w *c20World, allowBuild bool) {
 	switch kinds[m] {
 	case 0:
 		sb := c20block(ctx, vm, w, k)
+		if !w.inSync {
+			if verifChoose("verifyWithMismatchedPChainContext", 2) == 1 {
+				// the engine supplies a P-Chain context the block does not carry: verification must fail and leave no
+				// trace (the block stays unverified, the engine may verify it again later)
+				if err := sb.VerifyWithContext(ctx, &block.Context{PChainHeight: 7}); err == nil {
+					verifFail("mismatched-pchain-context-accepted")
+				}
+				verifReach("context-mismatch")
+				return
+			}
+		}
 		err := sb.Verify(ctx)
 		expectFail := w.blocks[k].invalid && !w.inSync
 		if (err != nil) != expectFail {
@@ -410,6 +421,11 @@ func c20final(ctx context.Context, vm *c20VM, w *c20World) {
 		}
 		if w.chainAccepted[k] != wantAcc {
 			verifFail("chain-accept-calls-differ-from-engine-accepts")
+		}
+		if w.status[k] == 0 || w.status[k] == 4 {
+			if w.chainVerified[k] != 0 {
+				verifFail("chain-executed-a-block-whose-verify-failed")
+			}
 		}
 		if w.notAccepted[k] != wantAcc {
 			verifFail("accepted-notifications-differ-from-engine-accepts")
